@@ -308,7 +308,10 @@ class LibMixin:
         return Sc("int", self.length_of(st, self.eval(node.args[0], st)))
 
     def minmax(self, node, st, is_min):
-        vals = [self.eval(a, st) for a in node.args]
+        if len(node.args) == 1 and isinstance(node.args[0], (ast.List, ast.Tuple)) and node.args[0].elts:
+            vals = [self.eval(a, st) for a in node.args[0].elts]   # min([a, b]) of a literal: same as min(a, b)
+        else:
+            vals = [self.eval(a, st) for a in node.args]
         if len(vals) == 1:
             return self.arr_minmax(node, st, vals[0], is_min)
         real = any(v.kind == "real" for v in vals)
@@ -591,6 +594,18 @@ class LibMixin:
 
     def m_values(self, recv, node, st):
         return ("dictvalues", recv)
+
+    def m_reverse(self, recv, node, st):
+        o = st.mut(recv)
+        k = z3.Int("k!rev")
+        if isinstance(o, HListArr):
+            o.a = z3.Lambda([k], z3.Select(o.a, o.n - 1 - k))
+            o.lens = z3.Lambda([k], z3.Select(o.lens, o.n - 1 - k))
+            return NONE
+        if isinstance(o, HArr) and o.is_list:
+            o.a = z3.Lambda([k], z3.Select(o.a, o.n - 1 - k))
+            return NONE
+        raise VCError("reverse on %r at line %d" % (o, node.lineno))
 
     def m_sort(self, recv, node, st):
         # in-place sort: contents become a sorted permutation (only sortedness + bag membership kept)
